@@ -142,7 +142,12 @@ loop:
 }
 
 func (t *tracer) Send(trace ITrace) {
-	t.traces <- trace
+	select {
+	case t.traces <- trace:
+	case <-t.done:
+		// the tracer has terminated: nobody will ever receive the trace, and
+		// a sender that did not register (or is late) must not block forever
+	}
 }
 
 func (t *tracer) RegisterSender() ISenderHandle {
